@@ -1,5 +1,6 @@
 # Concrete payload catalogue and instantiation of TLC's layout plans (spec/Layout.tla) as real grids.
 # Only construction: no expectation about dump/parse lives here.
+import base64
 import datetime
 import random
 
@@ -58,7 +59,12 @@ class Catalogue(object):
             X = hs.XStr
             return [('hex', X('hex', 'deadbeef')), ('hex_empty', X('hex', '')), ('b64', X('b64', '3q2+7w==')),
                     ('typed', X('Color', 'red')), ('typed_quote', X('Color', 'a "q" \\ b')),
-                    ('typed_nl', X('Note', 'l1\nl2')), ('typed_unicode', X('Span', u'é中'))]
+                    ('typed_nl', X('Note', 'l1\nl2')), ('typed_unicode', X('Span', u'é中')),
+                    # type names that differ from the built-in codecs only by case are ordinary typed strings
+                    ('Hex_cap', X('Hex', 'deadbeef')), ('B64_cap', X('B64', '3q2+7w==')), ('HEX_up', X('HEX', '00ff')),
+                    # payloads longer than one line of MIME base64 (57 bytes) / 76 hex digits
+                    ('b64_long', X('b64', base64.b64encode(bytes(bytearray(range(33, 33 + 95)))).decode('ascii'))),
+                    ('hex_long', X('hex', 'a7' * 70))]
         if kind == 'date':
             D = datetime.date
             return [('min', D(1, 1, 1)), ('y2k', D(1999, 12, 31)), ('leap', D(2000, 2, 29)), ('max', D(9999, 12, 31)),
